@@ -6,6 +6,7 @@ import (
 	_ "verif/props/c11"
 	_ "verif/props/c16"
 	_ "verif/props/c17"
+	_ "verif/props/c20"
 )
 
 func main() { drv.Main() }
